@@ -10,6 +10,7 @@ use vstd::seq_lib::*;
 use vstd::std_specs::iter::IteratorSpec;
 use std::collections::{HashMap, HashSet};
 verus!{
+//@include common/std_extra.rs
 broadcast use vstd::std_specs::iter::group_iter_axioms;
 // =====================================================================
 // spec functions (the property's vocabulary)
@@ -287,7 +288,7 @@ impl ClusterConfig {
 //@ensures
         config_wf(*final(self)),                                                          //#config_wf
         final(self).nodes@ == old(self).nodes@.filter(not_id(id)).push(NodeConfig { id, address, voter }),   //#one_entry_per_id
-//@closure 1 (n: &NodeConfig) -> (b: bool) ensures b == (@BODY)
+//@closure retain#1 (n: &NodeConfig) -> (b: bool) ensures b == (@BODY)
 //@after ".retain("
         proof {
             let s = old(self).nodes@;
@@ -319,7 +320,7 @@ impl ClusterConfig {
 //@ensures
         deref_seq(r@) == self.nodes@.filter(is_voter()),    //#voters_are_the_voter_entries
 //@chain ".filter(" c
-//@closure 1 (n: &&NodeConfig) -> (b: bool) ensures b == (@BODY)
+//@closure filter#1 (n: &&NodeConfig) -> (b: bool) ensures b == (@BODY)
 //@after "let c1 ="
         let ghost s0 = c1.remaining();
 //@after "let c2 ="
@@ -393,7 +394,7 @@ impl ClusterManager {
         final(self).mwf(),                                              //#keeps_wf
         final(self).config.nodes@ == old(self).config.nodes@.filter(not_id(id)),   //#removes_exactly_id
         final(self).active_nodes@ == old(self).active_nodes@.remove(id),           //#deactivates_id
-//@closure 1 (n: &NodeConfig) -> (b: bool) ensures b == (@BODY)
+//@closure retain#1 (n: &NodeConfig) -> (b: bool) ensures b == (@BODY)
 //@after ".retain("
         proof {
             let s = old(self).config.nodes@;
@@ -459,8 +460,8 @@ impl ClusterManager {
                 assert(metadata@.values().contains(*m0));
             }
         }
-//@closure 1 (n: &&&NodeConfig) -> (b: bool) ensures b == active@.contains(n.id)
-//@closure 2 (m: &NodeMetadata) -> (b: bool) ensures b == (m.role == NodeRole::Leader)
+//@closure filter#1 (n: &&&NodeConfig) -> (b: bool) ensures b == active@.contains(n.id)
+//@closure any#1 (m: &NodeMetadata) -> (b: bool) ensures b == (m.role == NodeRole::Leader)
 //@after "let d1 ="
         proof { lemma_active_subset(config.nodes@, active@); }
 //@after "let d2 ="
